@@ -86,7 +86,8 @@ def api_paths():
 
 
 def load_program(facts):
-    return Program(facts, no_inline=api_paths())
+    import fieldroles
+    return Program(fieldroles.canonicalise(facts), no_inline=api_paths())
 
 
 def atom(call):
